@@ -623,6 +623,10 @@ func parseFlags(c *explore.Ctx) {
 			c.Fail(fmt.Sprintf("parse-flags:error:%09b:%s", m&^0x3c, shape), "Parse(%s, flags %09b) into %s fails: %v (flags 0 succeed)", trunc(doc), m, shape, perr)
 			continue
 		}
+		if !bytes.Equal(in, doc) {
+			// the same bytes must parse again, with any other subset
+			c.Fail(fmt.Sprintf("parse-flags:document-rewritten:%09b", m&^0x3c), "Parse(%s, flags %09b) into %s changes the document it parses to %s", trunc(doc), m, shape, trunc(in))
+		}
 		if ok, why := jgen.DeepEq(ref.Elem(), got.Elem()); !ok {
 			c.Fail(fmt.Sprintf("parse-flags:value:%09b:%s", m&^0x3c, shape), "Parse(%s, flags %09b) into %s differs from flags 0 at %s", trunc(doc), m, shape, why)
 		}
